@@ -11,12 +11,16 @@
    the dust threshold, not locked by an owner the policy does not admit; no note twice; inputs = payments +
    change + fee in every step; the lock columns and get_locked_outputs equal the specification's lock
    state after every operation (all-or-nothing acquisition, owner-scoped unlock, clear, expiry).
+3. The proposal validators (Step::from_parts, Proposal::multi_step / single_step, the protobuf decode path) are
+   bound directly (checks/c08_validators.py, spec/Wallet/ProposalValid.tla): TLC enumerates valid and invalid
+   step lists with the set of violated rules; verdict and error class of the real validators must agree.
 """
 import json
 import os
 
 from . import lib
 from . import c01
+from . import c08_validators
 
 AREA = "Wallet"
 
@@ -105,6 +109,11 @@ def run(ctx):
                                or tot.get("inputs_judged", 0) < 50):
         raise lib.ToolError("vacuity: too few successful proposals / locks in the trace: %s" % tot)
     ctx.extra["proposal_stats"] = tot
+    # the validators every proposal passes through (Step::from_parts, Proposal::multi_step / single_step, the protobuf
+    # decode path), bound directly: a correct selector would hide a weakened validator
+    vstats = None
+    if not ctx.violations:
+        vstats = c08_validators.run_part(ctx)
     lib.mc_evidence(
         ctx,
         rule="seeded random wallet histories (as C01) interleaved with propose_transfer calls under 4 confirmation policies, "
@@ -114,9 +123,9 @@ def run(ctx):
         evaluations=tot.get("proposals", 0), distinct_nontrivial=tot.get("inputs_judged", 0),
         assumptions=["relational: which eligible notes are chosen and refusals (InsufficientFunds, ScanRequired) are not judged",
                      "confirmations are required to be at least the weaker of the policy's two counts",
-                     "one account, shielded inputs only (baseline feature set: no transparent-inputs); stored pending "
-                     "transactions, proposal validators (Step::from_parts / Proposal::multi_step) and fee = ZIP 317 of the "
-                     "step's shape are not bound here (C07 decides the fee rule)",
+                     "proposal validators (Step::from_parts / Proposal::multi_step / single_step / protobuf decode) are bound by "
+                     "ProposalValid.tla: every TLC-enumerated case (valid and invalid step lists) is replayed on the real "
+                     "validators and verdict + error class compared; fee = ZIP 317 of the step's shape is C07's",
                      "the proposal's anchor is only required to be at or below the tip (C06 decides roots and witnesses)"])
 
 
@@ -125,6 +134,8 @@ def replay(ctx, path):
     d = lib.stage_specs(ctx, AREA)
     with open(path) as f:
         rep = json.load(f)
+    if rep.get("part") == "validators":
+        return c08_validators.replay_part(ctx, rep)
     tp = ctx.path("replay_trace.ndjson")
     with open(tp, "w") as f:
         for e in rep["history"]:
@@ -165,3 +176,4 @@ def selftest(ctx):
     if acc or n != idx + 1:
         raise lib.ToolError("selftest: unbalanced step at event %d not rejected there" % (idx + 1))
     lib.log("selftest ok: duplicated input and unbalanced step rejected at their event")
+    c08_validators.selftest_part(ctx)
